@@ -169,25 +169,14 @@ impl Peer {
         challenge: HandshakeChallenge,
         io_handler: &(dyn InterfaceIO + Send + Sync),
         wallet_lock: Arc<RwLock<Wallet>>,
-        configs_lock: Arc<RwLock<dyn Configuration + Send + Sync>>,
+        is_lite: bool,
+        block_fetch_url: String,
     ) -> Result<(), Error> {
         debug!(
             "handling handshake challenge : {:?} for peer : {:?}",
             challenge.challenge.to_hex(),
             self.index,
         );
-        let block_fetch_url;
-        let is_lite;
-        {
-            let configs = configs_lock.read().await;
-
-            is_lite = configs.is_spv_mode();
-            if is_lite {
-                block_fetch_url = "".to_string();
-            } else {
-                block_fetch_url = configs.get_block_fetch_url();
-            }
-        }
 
         let wallet = wallet_lock.read().await;
         let response = HandshakeResponse {
@@ -222,7 +211,8 @@ impl Peer {
         response: HandshakeResponse,
         io_handler: &(dyn InterfaceIO + Send + Sync),
         wallet_lock: Arc<RwLock<Wallet>>,
-        configs_lock: Arc<RwLock<dyn Configuration + Send + Sync>>,
+        is_lite: bool,
+        block_fetch_url: String,
         current_time: Timestamp,
     ) -> Result<(), Error> {
         debug!(
@@ -264,18 +254,6 @@ impl Peer {
             return Err(Error::from(ErrorKind::InvalidInput));
         }
 
-        let block_fetch_url;
-        let is_lite;
-        {
-            let configs = configs_lock.read().await;
-
-            is_lite = configs.is_spv_mode();
-            if is_lite {
-                block_fetch_url = "".to_string();
-            } else {
-                block_fetch_url = configs.get_block_fetch_url();
-            }
-        }
         let wallet = wallet_lock.read().await;
 
         if !wallet
